@@ -629,6 +629,15 @@ class FpPoint:
             if r is None:
                 raise NonResidue("cbrt")
             return r
+        if len(vals) == 1:
+            if name == "log" and vals[0] == 1:
+                return 0
+            if name == "exp" and vals[0] == 0:
+                return 1
+            if name in ("atan", "sin", "tan", "atanh", "sinh", "tanh", "asin") and vals[0] == 0:
+                return 0
+            if name in ("cos", "cosh") and vals[0] == 0:
+                return 1
         return self._h("fn", name, vals)
 
     def eval(self, n) -> int:
